@@ -36,6 +36,7 @@ type vViewC14 struct {
 	pending []vbe.Op
 	cursor  int
 	steps   []int // drawn advance amounts, used cyclically
+	jumpRead, jumpBy int // additionally: at read number jumpRead (>=0) jumpBy more operations become visible
 	nReads  int
 	active  bool
 
@@ -44,6 +45,7 @@ type vViewC14 struct {
 	crossedIndex, crossedSnp int
 	snapListCursor           int // cursor when the reader first listed snapshots (-1: never)
 	indexListCursor          int // cursor when the reader first listed index files (-1: never)
+	firstListRead            int // number of the read that was the first snapshot or index listing (-1: never)
 }
 
 func (v *vViewC14) advance(listed backend.FileType, isList bool) {
@@ -53,6 +55,12 @@ func (v *vViewC14) advance(listed backend.FileType, isList bool) {
 		return
 	}
 	n := v.steps[v.nReads%len(v.steps)]
+	if v.nReads == v.jumpRead {
+		n += v.jumpBy
+	}
+	if isList && (listed == backend.SnapshotFile || listed == backend.IndexFile) && v.firstListRead < 0 {
+		v.firstListRead = v.nReads
+	}
 	v.nReads++
 	for i := 0; i < n && v.cursor < len(v.pending); i++ {
 		op := v.pending[v.cursor]
@@ -151,6 +159,9 @@ type vCaseC14 struct {
 	Reader   string   `json:"reader,omitempty"`
 	Start    int      `json:"start,omitempty"`
 	Steps    []int    `json:"steps,omitempty"`
+	Round    string   `json:"schedule,omitempty"`
+	JumpRead int      `json:"jump_read,omitempty"`
+	JumpBy   int      `json:"jump_by,omitempty"`
 	BaseSnap string   `json:"base_snapshot"`
 }
 
@@ -292,14 +303,27 @@ func TestVerifC14ReadersVsWriters(t *testing.T) {
 			t.Fatalf("merged trace: ordering invariant violated: %v\nops:\n%s", terr, vOpsStringC11(merged))
 		}
 
-		// every reading command in turn, each on its own view
-		readers := []string{"restore", "dump", "ls", "find", "diff", "check", "check-read-data", "stats", "stats-raw", "copy"}
-		for _, rd := range readers {
-			rc := c
-			rc.Reader = rd
-			rc.Start = rapid.IntRange(0, len(merged)).Draw(t, "start")
-			rc.Steps = rapid.SliceOfN(rapid.SampledFrom([]int{0, 0, 0, 0, 1, 1, 1, 2, 3}), 6, 12).Draw(t, "steps")
-			view := &vViewC14{Store: e.store.Clone(), pending: merged, steps: rc.Steps, snapListCursor: -1, indexListCursor: -1}
+		// positions at which a reader is aimed: for every snapshot save, the last index save of the same writer before it
+		type vAimC14 struct{ idx, snap int }
+		var aims []vAimC14
+		for p, op := range merged {
+			if op.Remove || op.Key.Type != backend.SnapshotFile {
+				continue
+			}
+			for q := p - 1; q >= 0; q-- {
+				if c.Merge[q] == c.Merge[p] && !merged[q].Remove && merged[q].Key.Type == backend.IndexFile {
+					aims = append(aims, vAimC14{q, p})
+					break
+				}
+			}
+		}
+
+		// runOne executes one reader on its own view and applies the oracle; it returns the number of the
+		// backend read with which the reader first listed snapshots or index files
+		runOne := func(rc vCaseC14) int {
+			rd := rc.Reader
+			view := &vViewC14{Store: e.store.Clone(), pending: merged, steps: rc.Steps, jumpRead: rc.JumpRead, jumpBy: rc.JumpBy,
+				snapListCursor: -1, indexListCursor: -1, firstListRead: -1}
 			view.Store.Apply(merged[:rc.Start])
 			view.cursor, view.startCursor = rc.Start, rc.Start
 			re := *e
@@ -323,20 +347,32 @@ func TestVerifC14ReadersVsWriters(t *testing.T) {
 					}
 				}
 			}
+			// the window between the reader's snapshot listing and its index listing saw an index file AND
+			// a snapshot file appear: the schedule in which a reader listing in the wrong order fails
+			window := "none"
+			if view.snapListCursor >= 0 && view.indexListCursor >= 0 {
+				lo, hi := min(view.snapListCursor, view.indexListCursor), max(view.snapListCursor, view.indexListCursor)
+				wi, ws := false, false
+				for _, op := range merged[lo:hi] {
+					wi = wi || (!op.Remove && op.Key.Type == backend.IndexFile)
+					ws = ws || (!op.Remove && op.Key.Type == backend.SnapshotFile)
+				}
+				window = fmt.Sprintf("index=%v,snapshot=%v", wi, ws)
+			}
 			key := ""
 			if nt {
 				key = vJSON(rc) + fmt.Sprint(view.nReads)
 			}
-			st.Case(key, "reader="+rd, fmt.Sprintf("crossed_index=%v", view.crossedIndex > 0), fmt.Sprintf("crossed_snapshot=%v", view.crossedSnp > 0),
+			st.Case(key, "reader="+rd, "schedule="+rc.Round, fmt.Sprintf("crossed_index=%v", view.crossedIndex > 0), fmt.Sprintf("crossed_snapshot=%v", view.crossedSnp > 0),
 				fmt.Sprintf("snapshot_appeared_before_listing=%v", newSnapAtListing), fmt.Sprintf("reader=%s,nontrivial=%v", rd, nt),
-				"writers="+strings.Join(c.Writers, "+"))
+				"writers="+strings.Join(c.Writers, "+"), "between_listings:"+window, fmt.Sprintf("reader=%s,between_listings:%s", rd, window))
 			if st.WantSample() && nt {
 				st.Sample(map[string]any{"case": rc, "reader_backend_reads": view.nReads, "cursor_end": view.cursor, "cursor_at_snapshot_listing": view.snapListCursor, "cursor_at_index_listing": view.indexListCursor, "ops": strings.Split(strings.TrimSpace(vOpsStringC11(merged)), "\n")})
 			}
 
 			desc := func() string {
-				return fmt.Sprintf("reader %s on a view starting at op %d of %d, steps %v (reads %d, cursor at snapshot listing %d, at index listing %d, at end %d)\nmerged writer ops:\n%scase %s",
-					rd, rc.Start, len(merged), rc.Steps, view.nReads, view.snapListCursor, view.indexListCursor, view.cursor, vOpsStringC11(merged), vJSON(rc))
+				return fmt.Sprintf("reader %s (%s schedule) on a view starting at op %d of %d, steps %v, jump by %d at read %d (reads %d, cursor at snapshot listing %d, at index listing %d, at end %d)\nmerged writer ops:\n%scase %s",
+					rd, rc.Round, rc.Start, len(merged), rc.Steps, rc.JumpBy, rc.JumpRead, view.nReads, view.snapListCursor, view.indexListCursor, view.cursor, vOpsStringC11(merged), vJSON(rc))
 			}
 			if rerr != nil {
 				t.Fatalf("reader failed: %v\nstdout: %s\nstderr: %s\n%s", rerr, out.Stdout, out.Stderr, desc())
@@ -347,6 +383,33 @@ func TestVerifC14ReadersVsWriters(t *testing.T) {
 			if m := vBadOutputC14.FindString(out.Stderr); m != "" {
 				t.Fatalf("reader reported a problem (%q) although it returned success\nstderr: %s\n%s", m, out.Stderr, desc())
 			}
+			return view.firstListRead
+		}
+
+		// every reading command in turn, each on its own view, under two schedules
+		readers := []string{"restore", "dump", "ls", "find", "diff", "check", "check-read-data", "stats", "stats-raw", "copy"}
+		for _, rd := range readers {
+			// (a) random schedule: drawn start, a drawn number of writer operations becomes visible at every read
+			rc := c
+			rc.Reader, rc.Round, rc.JumpRead = rd, "random", -1
+			rc.Start = rapid.IntRange(0, len(merged)).Draw(t, "start")
+			rc.Steps = rapid.SliceOfN(rapid.SampledFrom([]int{0, 0, 0, 0, 1, 1, 1, 2, 3}), 6, 14).Draw(t, "steps")
+			firstList := runOne(rc)
+
+			// (b) aimed schedule, adapted to the read sequence just observed: the view starts right before a
+			// writer's last index file and a burst of writer operations (at least up to that writer's snapshot
+			// file) becomes visible between the reader's first listing and the reads following it
+			if len(aims) == 0 || firstList < 0 {
+				continue
+			}
+			aim := rapid.SampledFrom(aims).Draw(t, "aim")
+			rc = c
+			rc.Reader, rc.Round = rd, "aimed"
+			rc.Start = aim.idx
+			rc.Steps = []int{0}
+			rc.JumpRead = firstList + rapid.IntRange(1, 3).Draw(t, "jumpAfterListing")
+			rc.JumpBy = rapid.IntRange(aim.snap-aim.idx+1, len(merged)-aim.idx).Draw(t, "jumpBy")
+			runOne(rc)
 		}
 	})
 }
@@ -399,8 +462,22 @@ func vRunReaderC14(re *vEnv, rd, baseSnap string, snaps []vSnapC14) (out vOut, e
 			return runFind(ctx, FindOptions{}, gopts, []string{"*"}, gopts.Term)
 		})
 	case "diff":
+		// diff takes snapshot IDs only: like a user, list the snapshots first (`restic list snapshots`,
+		// a process of its own on the same view), then diff the base snapshot against another listed one
+		lout, lerr := re.call(re.gopts, func(ctx context.Context, gopts global.Options) error {
+			return runList(ctx, gopts, []string{"snapshots"}, gopts.Term, "")
+		})
+		if lerr != nil {
+			return lout, lerr, ""
+		}
+		other := baseSnap
+		for _, id := range strings.Fields(lout.Stdout) {
+			if id != baseSnap {
+				other = id
+			}
+		}
 		out, err = re.call(re.gopts, func(ctx context.Context, gopts global.Options) error {
-			return runDiff(ctx, DiffOptions{ShowMetadata: true}, gopts, []string{baseSnap, "latest"}, gopts.Term)
+			return runDiff(ctx, DiffOptions{ShowMetadata: true}, gopts, []string{baseSnap, other}, gopts.Term)
 		})
 	case "check", "check-read-data":
 		out, err = re.call(re.gopts, func(ctx context.Context, gopts global.Options) error {
